@@ -5,6 +5,9 @@
 (* tree.  One behaviour per distinct state (VIEW = state) in exhaustive mode.                *)
 EXTENDS TreeOrderGen, TreeLoad
 
+CONSTANT GenOnlyStale   \* emit only states in which some tree holds a stale cached snapshot path (it was
+                        \* reduced to a snapshot and then rebuilt back to an older one by a concurrent branch)
+
 MaxLimit == (MaxC + 1) * MaxOf(Sizes) + 1
 PlanExp(bs) == [k \in 1..Len(bs) |-> [ids |-> bs[k].ids, heads |-> AscSeq(bs[k].heads), size |-> bs[k].size]]
 
@@ -21,5 +24,5 @@ FreshLoads ==
 LoadBehaviour == [loads |-> SetToSeq({l \in PairLoads : l.limit <= TotalSize(rep[l.resp]) + 1}) \o SetToSeq({l \in FreshLoads : l.limit <= TotalSize(rep[l.resp]) + 1})] @@ Behaviour
 
 LoadView == <<vars, rj>>
-EmitLoad == EmitWhen(EmitNow, LoadBehaviour)
+EmitLoad == EmitWhen(EmitNow /\ (GenOnlyStale => \E r \in Replicas : StalePath(rep[r])), LoadBehaviour)
 =============================================================================
